@@ -5,7 +5,7 @@
    Numbers are in engine units; the passage from a system description in arbitrary units to these
    tables (librdengine.py) and the Python kinetics functions are tied by correspondence (and C04). *)
 From Coq Require Import ZArith QArith Qcanon List.
-From Verif Require Import Num Grid GridFacts Engine EngineFacts.
+From Verif Require Import Num Grid GridFacts Engine EngineFacts EngineBuild GridGraphRate KineticsGrid.
 Open Scope Qc_scope.
 
 (* k[env,r] * V^(1-order) * prod x^sub  =  k * V * prod (x/V)^sub *)
@@ -54,10 +54,24 @@ Theorem C01_cell_major_layout : forall (d : Qc) ns nc x i s, (i < nc)%nat -> (s 
 Proof. exact (@to_cell_major_nth Qc). Qed.
 Print Assumptions C01_cell_major_layout.
 
+(* kinetics.py on a grid, modelled branch by branch (Proofs/KineticsGrid.v: unsplit reactions with forward minus reverse rate,
+   six wrapped candidate neighbours with k = 2 / (h^2 (1/Di + 1/Dj)), the chemostat test last): what it returns is this rate law,
+   for every table in which reaction q sits at 2q (forward) and 2q+1 (reverse) - which the tables built from any system are *)
+Theorem C01_kinetics_grid : forall T g h, wf_grid g -> Z.of_nat (nC T) = gsize g -> h <> 0 -> (forall s e, 0 <= Dc T s e) ->
+  forall x b i s Q, paired T Q -> (i < nC T)%nat ->
+  kin_dxdt T g h x b i s Q = if b && Chs T i s then 0 else rate_law T (GGrid g h) x i s.
+Proof. exact kinetics_grid_is_rate_law. Qed.
+Print Assumptions C01_kinetics_grid.
+
+Theorem C01_tables_are_paired : forall sys ue chs, paired (build_tables sys ue chs) (length (System.n_reactions (System.sy_net sys))).
+Proof. exact build_tables_paired. Qed.
+Print Assumptions C01_tables_are_paired.
+
 (* non-vacuity: A -> B (k = 2) in a 2x1x1 reflecting grid, D = 1, h = 1: the law gives -2 x_A + (x_A' - x_A) *)
 Definition ex_T : etab := {| nS := 2; nR := 2; nE := 1; nC := 2; tk := [QcZ 2; 0]; tsub := [1; 0; 0; 1]%Z; tsto := [-1; 1; 1; -1]%Z;
                              tD := [1; 0]; tenv := [0; 0]%nat; tchs := [false; false; false; false] |}.
 Definition ex_G : geom := GGrid {| gw := 2; gh := 1; gd := 1; px := false; py := false; pz := false |} 1.
 Example C01_example :
-  this (dxdt ex_T ex_G [QcZ 3; 0; QcZ 5; 0] 0 0) = (-4 # 1)%Q /\ this (rate_law ex_T ex_G [QcZ 3; 0; QcZ 5; 0] 0 0) = (-4 # 1)%Q.
-Proof. split; vm_compute; reflexivity. Qed.
+  this (dxdt ex_T ex_G [QcZ 3; 0; QcZ 5; 0] 0 0) = (-4 # 1)%Q /\ this (rate_law ex_T ex_G [QcZ 3; 0; QcZ 5; 0] 0 0) = (-4 # 1)%Q
+  /\ this (kin_dxdt ex_T {| gw := 2; gh := 1; gd := 1; px := false; py := false; pz := false |} 1 [QcZ 3; 0; QcZ 5; 0] true 0 0 1) = (-4 # 1)%Q.
+Proof. repeat split; vm_compute; reflexivity. Qed.
